@@ -26,6 +26,24 @@ enum Op {
     Gap(u64),
 }
 
+/// a blocking call of a sequential script is expected to return within a few milliseconds; if it does not
+/// (a missed wake-up), this watchdog sends a sentinel after 3 s so that the script fails instead of hanging
+const WATCHDOG_SENTINEL: u64 = 9_999_999;
+fn watchdog(sender: &message_io::events::EventSender<u64>) -> std::sync::Arc<std::sync::atomic::AtomicBool> {
+    let done = std::sync::Arc::new(std::sync::atomic::AtomicBool::new(false));
+    let (d2, tx) = (done.clone(), sender.clone());
+    std::thread::spawn(move || {
+        for _ in 0..300 {
+            std::thread::sleep(Duration::from_millis(10));
+            if d2.load(std::sync::atomic::Ordering::SeqCst) {
+                return
+            }
+        }
+        tx.send(WATCHDOG_SENTINEL);
+    });
+    done
+}
+
 /// reference queue = the property statement, executable (direct oracle; independent of the model)
 #[derive(Default)]
 struct RefQ {
@@ -194,7 +212,16 @@ fn run_seq(script: &[Op]) -> (String, String, String) {
                     continue
                 }
                 let t = run.slot(3);
+                let wd = if forever { Some(watchdog(&sender)) } else { None };
                 let r = q.receive_timeout(if forever { Duration::MAX } else { Duration::from_micros(d * QUARTER_US) });
+                if let Some(wd) = wd {
+                    wd.store(true, std::sync::atomic::Ordering::SeqCst);
+                }
+                if r == Some(WATCHDOG_SENTINEL) {
+                    fail.get_or_insert(format!("R{}@{} was still blocked 3 s later", d, t));
+                    toks.push(format!("R{}@{}=hung", d, t));
+                    break
+                }
                 let tret = run.quarter_now();
                 if !rq.timers.is_empty() && (!rq.plain.is_empty() || !rq.prio.is_empty()) {
                     tags.insert("timer+queued");
@@ -220,7 +247,14 @@ fn run_seq(script: &[Op]) -> (String, String, String) {
                     continue
                 }
                 let t = run.slot(3);
+                let wd = watchdog(&sender);
                 let r = q.receive();
+                wd.store(true, std::sync::atomic::Ordering::SeqCst);
+                if r == WATCHDOG_SENTINEL {
+                    fail.get_or_insert(format!("B@{} was still blocked 3 s later", t));
+                    toks.push(format!("B@{}=hung", t));
+                    break
+                }
                 let tret = run.quarter_now();
                 if !rq.timers.is_empty() && (!rq.plain.is_empty() || !rq.prio.is_empty()) {
                     tags.insert("timer+queued");
@@ -635,6 +669,42 @@ fn run_conc(sender: &[(u64, SOp)], receiver: &[(u64, ROp)]) -> (String, String, 
     if all.iter().any(|x| x.1.starts_with('c')) {
         tags.insert("cancel");
     }
+    // several sends in one slot while a call is blocked race with its wake-up: which of them the woken call
+    // sees is not determined by the grid, so the reference twin does not apply; what must hold is exactly
+    // once and per-kind order of the one sender (the model driver still validates the whole trace)
+    let racy = sender.windows(2).any(|w| w[0].0 == w[1].0 && (matches!(w[0].1, SOp::Send(_) | SOp::Prio(_)) || matches!(w[1].1, SOp::Send(_) | SOp::Prio(_))))
+        && receiver.first().map_or(false, |r| r.0 < sender.first().map_or(0, |s| s.0));
+    if racy {
+        let ids = |c: char| -> Vec<u64> {
+            all.iter().filter(|x| x.1.starts_with(c)).filter_map(|x| x.1[1..].split('@').next().and_then(|v| v.parse().ok())).collect()
+        };
+        let (plain, prio) = (ids('s'), ids('p'));
+        let got: Vec<u64> = all
+            .iter()
+            .filter(|x| !x.1.starts_with(['s', 'p', 't', 'c']))
+            .filter_map(|x| x.1.split('=').nth(1).and_then(|o| o.split('/').next()).and_then(|v| v.parse::<u64>().ok()))
+            .collect();
+        let in_order = |sent: &Vec<u64>| {
+            let pos: Vec<usize> = got.iter().filter_map(|g| sent.iter().position(|s| s == g)).collect();
+            pos.windows(2).all(|w| w[0] < w[1])
+        };
+        let mut sorted = got.clone();
+        sorted.sort();
+        sorted.dedup();
+        fail = if sorted.len() != got.len() {
+            Some(format!("an event was returned twice: {:?}", got))
+        }
+        else if !in_order(&plain) {
+            Some(format!("plain events of one sender returned out of order: sent {:?}, returned {:?}", plain, got))
+        }
+        else if !in_order(&prio) {
+            Some(format!("priority events of one sender returned out of order: sent {:?}, returned {:?}", prio, got))
+        }
+        else {
+            None
+        };
+        late_return = None;
+    }
     let trace = format!("vq conc {}", all.iter().map(|x| x.1.clone()).collect::<Vec<_>>().join(" "));
     let verdict = match (&fail, late, &late_return) {
         (_, true, _) => "inconclusive".to_string(),
@@ -701,7 +771,7 @@ fn gen_conc_script(rng: &mut Rng) -> (Vec<(u64, SOp)>, Vec<(u64, ROp)>) {
                 5..=8 => {
                     // equal logical deadlines from different slots are a few microseconds apart in
                     // an order the grid does not fix: never generated
-                    let dur = *rng.pick(&[2u64, 10, 10, 18, 26, 8_000_002]);
+                    let dur = *rng.pick(&[0u64, 2, 10, 10, 18, 26, 8_000_002]);
                     if deadlines.contains(&(tick * 8 + 1 + dur)) {
                         SOp::Send(id)
                     }
@@ -1258,11 +1328,13 @@ fn run_deadlinerace(attempts: usize) -> (String, String, String) {
     }
     let mut late_none = 0usize;
     let mut first = String::new();
-    let dur = Duration::from_micros(1500);
     for a in 0..attempts {
         let mut q = EventReceiver::<u64>::default();
         let tx = q.sender().clone();
-        let delta = Duration::from_micros([5u64, 10, 20, 40, 80, 160][a % 6]);
+        // every other attempt stays below one millisecond altogether (a 300 us timer, a timeout of < 1 ms)
+        let sub_ms = a % 2 == 1;
+        let dur = Duration::from_micros(if sub_ms { 300 } else { 1500 });
+        let delta = Duration::from_micros(if sub_ms { [350u64, 500, 650][a % 3] } else { [5u64, 10, 20, 40, 80, 160][a % 6] });
         tx.send_with_timer(a as u64, dur);
         let after = Instant::now();
         let call_deadline = after + dur + delta;
@@ -1328,6 +1400,35 @@ fn run_latecancel(attempts: usize) -> (String, String, String) {
         if delivered == 0 { "ok".into() } else { format!("FAIL {} of {} timers cancelled before their deadline (within its last millisecond) were delivered", delivered, counted) },
         format!("latecancel,cancel,timer{}", if counted * 2 >= attempts { ",waited" } else { "" }),
     )
+}
+
+/// `vq farfuture`: durations that cannot be added to the clock (Duration::MAX, u64::MAX s, i64::MAX s) and a
+/// huge representable one.  send_with_timer may refuse (panic) or keep the timer pending for ever; it may
+/// never deliver it: a plain event sent afterwards is the next thing returned, then nothing.
+fn run_farfuture() -> (String, String, String) {
+    let mut early = 0;
+    let mut detail = String::new();
+    for (k, d) in [Duration::MAX, Duration::from_secs(u64::MAX), Duration::from_secs(i64::MAX as u64), Duration::from_secs(u64::MAX / 4), Duration::from_secs(100 * 365 * 86400)].into_iter().enumerate() {
+        let mut q = EventReceiver::<u64>::default();
+        let tx = q.sender().clone();
+        let tx2 = tx.clone();
+        let scheduled = std::panic::catch_unwind(std::panic::AssertUnwindSafe(move || tx2.send_with_timer(1000 + k as u64, d))).is_ok();
+        tx.send_with_timer(7, Duration::from_millis(3));
+        tx.send(5);
+        let mut got = vec![];
+        for _ in 0..3 {
+            if let Some(e) = q.receive_timeout(Duration::from_millis(10)) {
+                got.push(e);
+            }
+        }
+        if got != vec![5, 7] && got != vec![7, 5] {
+            early += 1;
+            if detail.is_empty() {
+                detail = format!("a timer of {:?} (accepted: {}) was involved in {:?}", d, scheduled, got);
+            }
+        }
+    }
+    (format!("early={}", early), if early == 0 { "ok".into() } else { format!("FAIL {}", detail) }, "farfuture,timer,waited".into())
 }
 
 fn run_race(kind: char) -> (String, String, String, String) {
@@ -1511,6 +1612,16 @@ fn main() {
                 (vec![(2, SOp::Prio(5))], vec![(0, ROp::Recv)]),
                 (vec![(2, SOp::Send(5))], vec![(0, ROp::RecvTimeout(u64::MAX))]),
                 (vec![(0, SOp::Timer(1, 18)), (3, SOp::Timer(2, 2))], vec![(0, ROp::RecvTimeout(u64::MAX)), (1, ROp::RecvTimeout(u64::MAX))]),
+                // a receiver already blocked when one sender sends plain, priority, plain, plain back to back:
+                // whatever wakes it, the plain events keep their order
+                (vec![(2, SOp::Send(5)), (2, SOp::Prio(6)), (2, SOp::Send(7)), (2, SOp::Send(8))], vec![(0, ROp::Recv), (3, ROp::Recv), (3, ROp::Recv), (3, ROp::Recv)]),
+                (vec![(2, SOp::Send(5)), (2, SOp::Prio(6)), (2, SOp::Send(7)), (2, SOp::Send(8))], vec![(0, ROp::RecvTimeout(50)), (3, ROp::Try), (3, ROp::Try), (3, ROp::Try)]),
+                // a priority send alone wakes a receiver blocked in either call
+                (vec![(2, SOp::Prio(5))], vec![(0, ROp::RecvTimeout(34))]),
+                (vec![(0, SOp::Timer(1, 8_000_002)), (2, SOp::Prio(5))], vec![(0, ROp::RecvTimeout(50))]),
+                // a zero-duration timer is a timer: it keeps its place before a later timer of the same sender
+                (vec![(0, SOp::Timer(1, 0)), (0, SOp::Timer(2, 2))], vec![(2, ROp::Try), (2, ROp::Try)]),
+                (vec![(0, SOp::Send(3)), (0, SOp::Timer(1, 0)), (0, SOp::Timer(2, 2))], vec![(2, ROp::Recv), (2, ROp::Recv), (2, ROp::Recv)]),
             ];
             for _ in 0..n {
                 scripts.push(gen_conc_script(&mut rng));
@@ -1550,6 +1661,10 @@ fn main() {
                     }
                 }
             }
+        }
+        "gen-farfuture" => {
+            let (i, v, t) = run_farfuture();
+            emit(&mut out, "vq farfuture", &i, &v, &t);
         }
         "gen-latecancel" => {
             let n = arg_u64(2, 200) as usize;
@@ -1594,6 +1709,11 @@ fn main() {
         }
         "run" => {
             for line in stdin_lines() {
+                if line.trim() == "vq farfuture" {
+                    let (i, v, t) = run_farfuture();
+                    emit(&mut out, "vq farfuture", &i, &v, &t);
+                    continue
+                }
                 if line.starts_with("vq latecancel ") {
                     let n = line.split(' ').nth(2).and_then(|x| x.parse().ok()).unwrap_or(0);
                     let (i, v, t) = run_latecancel(n);
